@@ -1,7 +1,9 @@
 """C04 (partial) — the abbreviations guarded by regular expressions in the Turtle pretty-printer never leave the
 Turtle grammar (engine R, unbounded); witnesses are replayed through TurtleSerializer + the real Turtle parser."""
 import os
-from engine import rprop, replay as rp
+from engine import rprop, kprop, replay as rp
+from engine.kani_run import Harness
+from engine.common import VERIF
 from engine.rx import extract, rustre, ast as A
 from engine.common import log
 from refgrammar import w3c
@@ -20,7 +22,30 @@ CORPUS = ["0", "+0", "-0", "1.5", "+1.5", ".5", "5.", "1e5", "1.e5", ".1e5", "1E
           "a", "a.b", "a.", ".a", "a:b", "a%41", "a%4", "a\\.b", "a-b", "-a", "0a", "a b", "é", "a/b", "a#b", "·a", "a·"]
 
 
+def kspec(tier):
+    return kprop.KSpec(
+        package="sophia_api", crate_dir="api",
+        harness_files={"api": [os.path.join(VERIF, "harness", "api", "c04_prefix_pair.rs")]},
+        harnesses=[Harness("c04_prefix_pair_sound", unwind=7, timeout=180 if tier == "quick" else 1800,
+                           note="2-entry prefix map with overlapping/unrelated namespaces, 4-byte IRI over {a,b,.,-}, symbolic suffix check")],
+        jobs=2,
+        encoded=["sophia_api::prefix::PrefixMap::get_checked_prefixed_pair for [(P, N)] (used by write_iri to build prefixed names)"],
+        bounds=["IRI of 4 symbolic bytes over {a b . -}", "2 namespaces: symbolic prefixes of the IRI (any lengths 0..=4) or an unrelated one", "symbolic suffix predicate (non-empty / forbidden first byte)"],
+        outside=["longer IRIs / more than two prefixes", "other PrefixMap implementations"],
+    )
+
+
 def run(ctx):
+    kprop.run(ctx, kspec(ctx.tier))
+    kcov = dict(ctx.coverage)
+    try:
+        _run_r(ctx)
+    finally:
+        rcov = dict(ctx.coverage)
+        _rt.merge_k_r(ctx, kcov, rcov, rcov.get("traces_validated_against_impl", 0) if rcov.get("obligations") else 0)
+
+
+def _run_r(ctx):
     try:
         src = {n: extract.extract(n) for n in NAMES}
         asts = {n: rustre.parse(s) for n, s in src.items()}
@@ -100,6 +125,8 @@ def run(ctx):
 def replay(ctx, path):
     import json
     w = json.load(open(path))
+    if "playback_test" in w:
+        return kprop.replay(ctx, kspec(ctx.tier), path)
     rep = rp.Replay(ctx.id, profiles=("dev",))
     try:
         a = _rt.rt_eval(rep, [("ttl", w["kind"], w["string"])])[0]
